@@ -26,9 +26,14 @@ def run_family(chk, name, cases, case_fn, site, rule, nontrivial=lambda case: Tr
     results = runner.run_cases(case_fn, cases, timeout=timeout)
     distinct = set()
     n_eval = 0
+    n_timeouts = []
     for case, r in zip(cases, results):
         st = r.get("status")
-        if st in ("crash", "timeout"):
+        if st == "timeout":
+            # the case did not finish within its budget: undecided for this case (never a violation, never a checker crash)
+            n_timeouts.append(str(case.get("tag")))
+            continue
+        if st == "crash":
             chk.errors.append(f"{name}: harness {st} on case {case.get('tag')}: {r.get('error', '')} {r.get('trace', '')[-600:]}")
             continue
         if st == "skipped":
@@ -50,6 +55,11 @@ def run_family(chk, name, cases, case_fn, site, rule, nontrivial=lambda case: Tr
                                       function=case_fn.__name__, case=_jsonable(case)),
                            features=dict(case.get("features", {}), tag=case.get("tag"), base=str(case.get("tag")).split("/")[0], **{k: case[k] for k in ("vec", "backend", "solver") if k in case}))
                 chk.report_failure(rec)
+    if n_timeouts:
+        chk.notes.append(f"{name}: {len(n_timeouts)} case(s) exceeded the per-case budget of {timeout} s and are UNDECIDED (not counted as "
+                         f"evaluated): {n_timeouts[:6]}")
+        if len(n_timeouts) > max(3, len(cases) // 10):
+            chk.errors.append(f"{name}: {len(n_timeouts)} of {len(cases)} cases timed out — the family decides too little to report `held`")
     chk.add_bounded(name, n_eval, len(distinct), rule, [sample_of(c) for c in cases[:2]])
     return results
 
